@@ -14,3 +14,6 @@ mod streams_manager;
 
 // pub for criterion usage
 pub mod ogre_std;
+
+#[cfg(feature = "verif")]
+pub mod verif;
